@@ -51,6 +51,11 @@ LawClauses(r) ==
     \* A fit is a function of (instance, data, weights): identical bit for bit.
     <<"CaseOrderIndependent", r.bits0 = r.bitsA /\ r.bitsA = r.bitsB>>,
     <<"EarlierFitDoesNotLeak", r.bits0 = r.bitsH>>,
+    \* r.hist: the same fit as the LAST fit of one object with a past (f_delta set / changed after an earlier
+    \* fit, delta attribute overwritten, deep copy): the delta in force is f_delta, whatever the object holds
+    <<"ObjectHistoryIndependent",
+        r.fixed => /\ ObjectHistories \subseteq {r.hist[i].name : i \in 1..Len(r.hist)}
+                   /\ \A i \in 1..Len(r.hist) : r.hist[i].bits = r.bitsA>>,
     <<"DeltaLocalMin", ~r.fixed => StepOk(r.hq, r.dq) /\ LocalMinD(r.em, r.ep, r.emdef, r.epdef, r.dq)>>
   >>
 
